@@ -17,10 +17,11 @@ CLAIMS = {
             "Theorems (Props/C01.lean, Proofs/Tree.lean, Proofs/Ports.lean): C01_tree - for every finite list of well-formed patterns in every order and multiplicity and every origin, the tree built by successive Insert "
             "contains the origin iff some listed pattern denotes it (Spec.denotes: same scheme; host byte-equal, or ending in `.`+base with at least one more byte in front for `*.`; port equal or arbitrary for `:*`); C01_order - the verdict "
             "depends only on the set of patterns; C01_invariant - sorted edges/schemes/ports and label = first byte of each child's suffix hold for every tree the code can build; C01_parsed - every pattern ParsePattern accepts is well-formed; "
-            "C01_config / C01_allow_all / C01_request - for an accepted configuration the raw Origin value is treated as allowed iff `*` is listed or it parses and a listed pattern denotes it. The core is insert_spec: Insert adds exactly the coverage "
+            "C01_config / C01_allow_all / C01_request - for an accepted configuration the raw Origin value is treated as allowed iff `*` is listed or it parses and a listed pattern denotes it; C01_browser_parse / C01_browser - the request-side lexer reads every serialised origin with a domain host "
+            "(scheme, `://`, LDH labels, optional trailing dot, optional port 1-65535; up to the longest such string) exactly into its parts, so the decision on the header *string* is `some listed pattern denotes the origin it stands for`. The core is insert_spec: Insert adds exactly the coverage "
             "of the new entry (descend, subsumption short-cut, new leaf, split into child'/grandchildren), including the Go code's peculiar duplicate test in node.add. Tie: tree suite (ParsePattern+Insert / Parse+Contains on pattern lists sharing "
             "non-boundary suffixes with probes derived from every pattern), lex suite (Parse), decision bits of the serve suite.",
-            '6/C01', "C01_parsed/C01_config/C01_request assume that the IPv6 oracle never accepts a literal starting with `*` (true of netip.ParseAddr). C01_browser (every serialisable origin is parsed by origins.Parse) is not proved; bracketed non-IP hosts are matched after bracket stripping (DESIGN 8.9)."),
+            '6/C01', "C01_parsed/C01_config/C01_request assume that the IPv6 oracle never accepts a literal starting with `*` (true of netip.ParseAddr). Serialised origins with IP-literal hosts rest on the netip oracle (tie only); bracketed non-IP hosts are matched after bracket stripping (DESIGN 8.9)."),
     'C02': ('proof', 'Lean 4 theorem (browser verdict computed by a transcription of CORS-preflight fetch / CORS check on the model\'s responses = documented meaning, all configurations x intents x debug modes x tolerated ACRH shapes) + strict differential tie of whole responses + browser verdict evaluated in Lean on the implementation\'s responses',
             "Theorems C02 / C02_accepted / C02_invariance (Props/C02.lean): for every accepted configuration (what acceptance guarantees is itself proved: ICfg.WF, ICfg.ReqHdrsSound), either debug mode, every browser intent (serialised origin, method token, "
             "token header names, credentials mode, private-network target) and every tolerated shape of the ACRH list (Browser.Tolerated: split over lines, <=1 OWS byte per side, <=16 empty elements), Browser.verdict - the transcription of "
